@@ -1047,8 +1047,8 @@ def run_C18(ctx):
             raise ToolError("TraceXadd failed:\n" + rr.out[-2000:])
         pos = int(m.group(1))
         ev = json.loads(lines[pos - 1])
-        ctx.violation(f"concurrent atomic adds ({ev['width']*8}-bit, engines {ev['engines']}, {ev['count']} adds each): final word {ev['final']} is not init + sum of addends, or other bytes changed, or an execution failed {ev['errors']}",
-                      {"kind": "xadd", "event": {k: ev[k] for k in ("width", "init", "adds", "final", "ok", "errors", "engines", "count", "word_offset")}})
+        ctx.violation(f"concurrent atomic adds ({ev['width']*8}-bit, engines {ev['engines']}, (base, source) registers {ev['regs']}, {ev['count']} adds each): final word {ev['final']} is not init + sum of addends, or other bytes changed, or an execution failed {ev['errors']}",
+                      {"kind": "xadd", "event": {k: ev[k] for k in ("width", "init", "adds", "final", "ok", "errors", "engines", "count", "word_offset", "regs")}})
         validated += pos - 1
         lines = lines[:pos - 1] + lines[pos:]
     ctx.traces += validated
